@@ -361,9 +361,68 @@ def directed_multi_change_order(ctx):
     ctx.sig("directed", "multi_change_order")
 
 
+PREP_SRC = """
+from spec_classes import spec_class
+
+@spec_class(bootstrap={boot})
+class Base:
+    x: int = 0
+    y: int = 0
+
+    def _prepare_x(self, x):
+        return x + 1
+
+class Plain(Base):      # an undecorated subclass overriding the preparer
+    def _prepare_x(self, x):
+        return x * 10
+
+@spec_class(bootstrap={boot})
+class Spec(Base):       # a decorated subclass overriding the preparer
+    z: int = 0
+
+    def _prepare_x(self, x):
+        return x * 100
+
+class Keeps(Base):      # a subclass that does not override it
+    pass
+"""
+
+
+def directed_preparer_override(ctx):
+    """`with_<a>(v)` stores the *prepared* v; the preparer is the `_prepare_<a>` method of the receiver's class, so a subclass
+    (decorated or not) that overrides it decides - on every route that stores a given value."""
+    routes = [
+        ("C(x=3)", lambda C: C(x=3)),
+        ("C().with_x(3)", lambda C: C().with_x(3)),
+        ("C().with_x(3, _inplace=True)", lambda C: C().with_x(3, _inplace=True)),
+        ("o = C(); o.x = 3", lambda C: (lambda o: (setattr(o, "x", 3), o)[1])(C())),
+        ("C().update(x=3)", lambda C: C().update(x=3)),
+        ("C().update(x=3, y=1, _inplace=True)", lambda C: C().update(x=3, y=1, _inplace=True)),
+        ("C(y=1).with_y(2).with_x(3)", lambda C: C(y=1).with_y(2).with_x(3)),
+    ]
+    expect = {"Base": 4, "Plain": 30, "Spec": 300, "Keeps": 4}
+    for boot in (True, False):
+        ns = cg.exec_module(PREP_SRC.format(boot=boot), prefix="verif_c05p").__dict__
+        for order in (("Base", "Plain", "Spec", "Keeps"), ("Keeps", "Spec", "Plain", "Base")):  # (first use through a subclass / through the base)
+            for cname in order:
+                for label, fn in routes:
+                    ctx.count("relations_judged")
+                    ctx.count("preparer_override_cases")
+                    try:
+                        got = fn(ns[cname]).x
+                    except Exception as e:
+                        got = f"{type(e).__name__}: {e}"
+                    if got != expect[cname]:
+                        ctx.violation("model_state", f"[directed] {label} with C = {cname} ({'overrides' if cname in ('Plain', 'Spec') else 'uses'} Base._prepare_x): x == {got!r}, the preparer of {cname} gives {expect[cname]}",
+                                      features={"rel": "M", "hkind": "with", "form": "preparer_override", "cls": cname, "lazy": not boot}, case=["preparer_override", cname, label, boot, order[0]])
+            ns = cg.exec_module(PREP_SRC.format(boot=boot), prefix="verif_c05p").__dict__
+    ctx.sig("directed", "preparer_override")
+
+
 def run(ctx, params):
     if params.get("directed"):
         directed_constant_transforms(ctx)
+        directed_preparer_override(ctx)
         return directed_multi_change_order(ctx)
     rng = ctx.rng
     for ci in range(params["cases"]):
